@@ -455,7 +455,10 @@ pub fn check(hdr: &str, lines: &[String], trace: &[(String, Vec<String>)], mon: 
                     }
                 }
                 if !parses_response_objects(&b[4..]) {
-                    fail(mon, hdr, "fits_and_parses", "", &format!("objects do not parse: {}", hex(b)));
+                    // D5: the echo of a READ repeated during the confirm wait of a later fragment is the first
+                    // fragment's header and size over the later fragment's objects
+                    let echo = in_sol_wait && frag.as_ref().map(|f| Some(&f.2) == last_read_frag.as_ref()).unwrap_or(false) && !has_cb(outs, "cb sol_new_request");
+                    fail(mon, hdr, "fits_and_parses", if echo { "D5" } else { "" }, &format!("objects do not parse: {}", hex(b)));
                 }
             } else if b[1] == 0x82 {
                 if b[0] & 0xF0 != 0xF0 {
@@ -783,12 +786,45 @@ fn parses_response_objects(mut b: &[u8]) -> bool {
         }
         let (g, v, q) = (b[0], b[1], b[2]);
         b = &b[3..];
+        if (g, v) == (1, 1) {
+            // packed bits with a start-stop qualifier
+            let n = match q {
+                0x00 if b.len() >= 2 && b[1] >= b[0] => {
+                    let n = (b[1] - b[0]) as usize + 1;
+                    b = &b[2..];
+                    n
+                }
+                0x01 if b.len() >= 4 => {
+                    let s = u16::from_le_bytes([b[0], b[1]]);
+                    let e = u16::from_le_bytes([b[2], b[3]]);
+                    if e < s {
+                        return false;
+                    }
+                    b = &b[4..];
+                    (e - s) as usize + 1
+                }
+                _ => return false,
+            };
+            let bytes = (n + 7) / 8;
+            if b.len() < bytes {
+                return false;
+            }
+            b = &b[bytes..];
+            continue;
+        }
         let size: usize = match (g, v) {
             (1, 2) => 1,
             (2, 1) => 1,
             (2, 2) => 7,
+            (2, 3) => 3,
             (30, 1) => 5,
+            (30, 2) => 3,
+            (30, 3) => 4,
+            (30, 4) => 2,
+            (30, 5) => 5,
+            (30, 6) => 9,
             (32, 1) => 5,
+            (32, 2) => 3,
             (12, 1) => 11,
             (41, 1) => 5,
             (41, 2) => 3,
